@@ -4111,9 +4111,12 @@ EGLPNUM_TYPENAME_QSLIB_INTERFACE void EGLPNUM_TYPENAME_QSerror_print (
 	}
 	else
 	{
+		/* f stays the caller's: only the wrapper around it is given up (as in
+		 * EGLPNUM_TYPENAME_QSwrite_prob_file) */
 		EGioFile_t*out = EGioOpenFILE(f);
 		EGLPNUM_TYPENAME_ILLformat_error_print (out, error);
-		EGioClose(out);
+		EGioFlush(out);
+		free(out);
 	}
 }
 
